@@ -14,6 +14,7 @@ func init() {
 func suiteC13Bind(cfg Config, res *Result) {
 	defer c13Defaults(res)
 	defer c13UnderSwitch(res)
+	defer c13SafeAnywhere(res)
 	res.Rule = "macro signatures with 0..4 parameters, any subset with default expressions (literals, names of the defining scope, names that are also parameters of the macro while the caller binds them too) x call sites with 0..5 arguments of all scalar kinds, lists and nil x definition local / imported / imported under an alias; oracle: a reference binding (i-th argument to i-th parameter, omitted -> default or empty, too many -> execution error), literal markup in the body comes out unescaped, and imported = local; also compared with the Lean model; non-trivial = call with omitted or defaulted parameters; distinct by (signature, call)"
 	n := 3000
 	if cfg.Thorough() {
@@ -112,6 +113,7 @@ func suiteC13Bind(cfg Config, res *Result) {
 }
 
 func suiteC13Rec(cfg Config, res *Result) {
+	defer c13MixedRecursion(res)
 	res.Rule = "call graphs of 1..3 macros that recurse without a base case (direct, mutual, with arguments), defined locally, imported, imported under an alias, called from loops and includes, and interleaved with calls of terminating local / imported macros; each executed in an isolated worker process (wall-clock limit, stack limit); oracle: the worker returns an execution error — it must not crash (stack overflow), hang or render; non-trivial = all; distinct by program"
 	type rc struct {
 		name string
